@@ -48,6 +48,7 @@ func main() {
 	goos := flag.String("goos", "", "GOOS override")
 	jsonOut := flag.String("json", "", "write a machine-readable summary of the run to this file")
 	noEvidence := flag.Bool("noevidence", false, "do not write evidence/replay files (sub-runs of the thorough tier)")
+	listFuncs := flag.Bool("listfuncs", false, "print the names of all library functions (used to regenerate baseline_funcs.go)")
 	merge := flag.String("merge", "", "directory with summaries of sub-runs (other build configurations, liveness runs) to merge into the evidence")
 	flag.Parse()
 	subRun.jsonOut, subRun.noEvidence, subRun.merge = *jsonOut, *noEvidence, *merge
@@ -59,6 +60,19 @@ func main() {
 		seed, _ = strconv.ParseInt(s, 10, 64)
 	}
 
+	if *listFuncs {
+		p, err := Load(*repo, *goos, *goarch, false)
+		if err != nil {
+			fmt.Fprintln(os.Stderr, err)
+			os.Exit(2)
+		}
+		for _, fn := range p.AllLibFuncs() {
+			if fn.Parent() == nil {
+				fmt.Println(FuncName(fn))
+			}
+		}
+		return
+	}
 	if *dump != "" {
 		p, err := Load(*repo, *goos, *goarch, false)
 		if err != nil {
